@@ -158,7 +158,15 @@ class Vertex(base.BaseObject):
         if not self.NEIGHBOR_CACHING:
             return self._QA_NB_INVALID
 
-        if args in self.__qa_nb_cache:
+        try:
+            hit = args in self.__qa_nb_cache
+        except TypeError:
+            # an argument that cannot be hashed (a filter callable defining
+            # __eq__ without __hash__, for example) cannot be a cache key; the
+            # query is simply answered without the cache
+            return self._QA_NB_INVALID
+
+        if hit:
             self._qa_stats()[0] += 1
 
             # hand out a copy: the caller owns what it gets, the cache keeps
@@ -212,8 +220,12 @@ class Vertex(base.BaseObject):
         """
         if not self.NEIGHBOR_CACHING:
             return
+        try:
+            self.__qa_nb_cache[args] = list(answer)
+        except TypeError:
+            # unhashable arguments: not cacheable (see _qa_neighbors_get)
+            return
         self._qa_stats()[3] += 1
-        self.__qa_nb_cache[args] = list(answer)
 
     def add_to_link(self, link: Link):
         """
